@@ -3,8 +3,9 @@
    Rust/ArenaProofs.v.  Quantification: every item type T, every default item, every
    finite history of arena calls (bound in the theorem: fewer calls than 2^32-1, the
    handle range of the crate itself).
-   OBLIGATIONS: C16_history_refines_handle_map C16_allocate_fresh C16_release_once C16_release_no_return C16_get_mut C16_contains C16_counts C16_clear C16_compact C16_out_of_range C16_nonvacuous *)
+   OBLIGATIONS: C16_history_refines_handle_map C16_allocate_fresh C16_release_once C16_release_no_return C16_get_mut C16_contains C16_counts C16_clear C16_compact C16_out_of_range C16_nonvacuous C16_len_counts_live *)
 From BPT Require Import Common.Base Rust.Arena Rust.ArenaSpec Rust.ArenaProofs.
+From BPT Require Extra.RustExtra2.
 From Coq Require Import Permutation.
 
 (* Every history of allocate / deallocate x3 / get / get_mut / contains / len /
@@ -87,3 +88,9 @@ Proof. intros T a; split; [apply get_null | apply get_out_of_range]. Qed.
 (* the hypotheses are satisfiable on a non-trivial state (frees, double free, reuse,
    stale handles, compact) *)
 Definition C16_nonvacuous := (arena_run_release, arena_run_compact).
+
+(* len counts exactly the handles for which get answers, free_count the rest *)
+Theorem C16_len_counts_live : forall (T:Type) (a:arena T), ArenaInv a -> small a ->
+  a_len a = length (filter (fun i => match a_get a (N.of_nat i) with Some _ => true | None => false end) (seq 0 (length (store a)))) /\
+  a_free_count a = length (store a) - a_len a.
+Proof. exact RustExtra2.len_counts_live. Qed.
